@@ -160,6 +160,14 @@ var c14Specials = []c14Special{
 		},
 	},
 	{
+		// No metavariables: x and y are the names of variables, although
+		// other changes of this family declare metavariables called x and
+		// y. Only the first plant is an instance.
+		Label:  "plain-names",
+		Text:   "@@\n@@\n-c14keep(x, y)\n+c14kept(y, x)\n",
+		Plants: []string{"c14keep(x, y)", "c14keep(c14a, c14b)", "_ = c14keep(1, 2)", "c14keep(y, x)", "c14sink(c14keep(x, c14f()))"},
+	},
+	{
 		// Not idempotent: applying the change twice shows in the bytes.
 		Label:  "bump",
 		Text:   "@@\nvar x expression\n@@\n-c14bump(x)\n+c14bump(x + 1)\n",
